@@ -188,6 +188,10 @@ func Quiesce()                                {}
 func ExploreSchedules(on bool, preemptBound int) {}
 func Note(s string)                           {}
 
+// Abstract replaces later calls of the named function ("pkg/path.Func") by an
+// uninterpreted function under gosym (no-op natively).
+func Abstract(fn string) {}
+
 // SetClock sets the virtual clock seen by time.Now (no-op natively).
 func SetClock(ns int64) {}
 
